@@ -108,6 +108,28 @@ def s1(ck: Check) -> None:
         probs.append("fallback seed is not the full valuation renamed through the diagram's network")
     ck.ob("S1", fb, fb.f.node, not probs, "; ".join(probs) if probs else "fallback seeds are full valuations over the network's variables",
           key="fallback seed")
+    # the fallback takes the successors' spaces out of its search region whenever the node is expanded (skip nodes included):
+    # otherwise the attractors of the successors are reported here as well as in their own nodes
+    sd_pf, node_pf = fb.f.params()[0], fb.f.params()[1]
+    expf = logic.B(f"T:FIELD<{sd_pf}|{node_pf}|expanded>")
+    probs = []
+    n_loops = 0
+    for lp in own_walk(fb.f.node):
+        if isinstance(lp, ast.For) and any(isinstance(c_, ast.Call) and callee_name(c_) == "node_successors" for c_ in ast.walk(lp.iter)):
+            n_loops += 1
+            pcl = fb.pc(fb.cfg.loop_header[lp])
+            try:
+                okl = expf[1] in logic.atoms(pcl) and logic.implies(pcl, expf)
+                extra_ = [a_ for a_ in logic.atoms(pcl) if a_[0] == "b" and a_[1].startswith("T:FIELD<") and a_ != expf[1]]
+            except logic.TooBig:
+                okl, extra_ = False, []
+            if not okl or extra_:
+                probs.append(f"line {lp.lineno}: the successors' spaces are handled under `{logic.show(pcl)[:80]}`, not whenever the node is "
+                             f"expanded")
+    if n_loops:
+        ck.ob("S1", fb, fb.f.node, not probs, ("; ".join(probs) + ": where they are left in, the fallback reports the attractors of the "
+              "successors again (every attractor below a skip node twice)") if probs else
+              "fallback removes the successors' spaces whenever the node is expanded", key="fallback child spaces")
 
 
 # ------------------------------------------------------------------------------------------ S2
